@@ -581,7 +581,7 @@ def c03_10(ctx):
     ctx.check("if self.false_count > 0 or self.true_count > 0:" in t and "self.error_f(" in t, "final-state", ctx.where(f), "check_final_state does not fail when a branch is still open")
     f = ctx.func(COND, "ConditionalStack.OP_IF")
     t = norm(f.node)
-    ok = t.index("if self.false_count > 0:") < t.index("if reverse_bool:") and "self.false_count += 1\n        return" in t and "the_bool = not the_bool" in t and "self.true_count += 1" in t and "self.false_count = 1" in t
+    ok = -1 < t.find("if self.false_count > 0:") < t.find("if reverse_bool:") and "self.false_count += 1\n        return" in t and "the_bool = not the_bool" in t and "self.true_count += 1" in t and "self.false_count = 1" in t
     ctx.check(ok, "op-if", ctx.where(f), "OP_IF does not (a) only deepen false_count inside a false branch, (b) apply NOTIF inversion, (c) open a true or a false branch")
     for name, msg in (("OP_ELSE", "OP_ELSE without OP_IF"), ("OP_ENDIF", "OP_ENDIF without OP_IF")):
         f = ctx.func(COND, "ConditionalStack." + name)
@@ -608,7 +608,7 @@ def c03_10(ctx):
     ok = len(pops) == 1 and "conditional_stack.all_if_true()" in gi.f_opaques(pops[0][1])
     ctx.check(ok, "if-pops-when-executing", ctx.where(inner), "IF/NOTIF pop the condition although the branch is not executing (or never pop it)")
     t = norm(inner.node)
-    ok = "if vm.flags & VERIFY_MINIMALIF:" in t and "if item not in (vm.VM_FALSE, vm.VM_TRUE):" in t and t.index("VERIFY_MINIMALIF") < t.index("the_bool = vm.bool_from_script_bytes(item)")
+    ok = "if vm.flags & VERIFY_MINIMALIF:" in t and "if item not in (vm.VM_FALSE, vm.VM_TRUE):" in t and -1 < t.find("VERIFY_MINIMALIF") < t.find("the_bool = vm.bool_from_script_bytes(item)")
     ctx.check(ok, "minimalif", ctx.where(inner), "MINIMALIF is not applied (item in {empty, 01}) before the condition is converted")
     ctx.check("vm.conditional_stack.OP_IF(the_bool, reverse_bool=reverse_bool)" in t, "if-dispatch", ctx.where(inner), "IF/NOTIF do not forward (condition, reverse flag) to the conditional stack")
 
